@@ -30,8 +30,11 @@ def render (s : St) (outs : List Out) : String :=
     (if s.deleted then "gone" else toString s.st.num) ++ " admin=" ++ toString s.admin.num ++
     " rib=" ++ toString s.rib
 
+/-- an OPEN in wire form: version, My-AS field, 4-octet capability present (0/1) and its value,
+    identifier, hold time -/
 def parseOpen : List String → Option OpenMsg
-  | [v, a, i, h] => some ⟨nat! v, nat! a, nat! i, nat! h⟩
+  | [v, my, hc, cv, i, h] =>
+    some (OpenWire.toMsg ⟨nat! v, nat! my, if b! hc then some (nat! cv) else none, nat! i, nat! h⟩)
   | _ => none
 
 def parseEv : List String → Option Ev
@@ -62,8 +65,9 @@ def step (d : DSt) (ts : List String) : DSt × List String :=
       let (s', outs) := Fsm.step d.cfg d.s e
       ({ d with s := s' }, [render s' outs])
     | none => (d, ["bad-op"])
-  | ["dom", lid, las, rid, ras] =>
-    (d, [if dominant (nat! lid) (nat! las) (nat! rid) (nat! ras) then "1" else "0"])
+  | ["dom", lid, las, rid, my, hc, cv] =>
+    let ras := getASN ⟨4, nat! my, if b! hc then some (nat! cv) else none, nat! rid, 0⟩
+    (d, [if dominant (nat! lid) (nat! las) (nat! rid) ras then "1" else "0"])
   | "vopen" :: las :: lid :: pas :: r =>
     match parseOpen r with
     | some o =>
